@@ -279,6 +279,12 @@ class EffectEngine:
                     outs = eng.outcomes(cb, tuple(ctx2), depth + 1)
                     res = combine(auto, outs)
                     return Multi(res) if len(res) != 1 else res[0]
+            if s["k"] == "Assign" and s["rv"]["k"] == "Aggregate" and s["rv"]["agg"]["a"] == "Adt" \
+                    and s["rv"]["agg"]["adt"] == "penguin_mux::stream::MuxStream":
+                # a stream handle comes into existence: dropping it notifies the task, which closes the flow registered under its id
+                if eng.keep is None or eng.keep("mk-stream"):
+                    eng.sites.add((b.dp, bb, "mk-stream"))
+                    return (auto[0], oadd(auto[1], ["mk-stream"], eng))
             if s["k"] == "Assign" and s["lhs"]["l"] == 0 and not s["lhs"].get("p") and s["rv"]["k"] == "Aggregate":
                 a = s["rv"]["agg"]
                 if a["a"] == "Adt" and a["adt"].endswith("result::Result") and a["variant"] == "Err":
